@@ -272,6 +272,34 @@ func init() {
 			}
 			return concStr(in.tf, strings.Repeat(s, n)), true
 		},
+		// sequential semantics of the synchronisation objects (one goroutine): Once runs its function the first time,
+		// locks are free (a second Lock of a held Mutex - a self-deadlock - is outside the model)
+		"(*sync.Once).Do": func(in *Interp, fr *frame, a []Value) (Value, bool) {
+			p, ok := a[0].(PtrV)
+			if !ok || p.R == nil {
+				in.goPanic("nil *sync.Once")
+			}
+			if in.onceDone == nil {
+				in.onceDone = map[string]bool{}
+			}
+			k := p.R.Key()
+			if in.onceDone[k] {
+				return nil, true
+			}
+			in.onceDone[k] = true
+			cl, _ := a[1].(*Closure)
+			if cl == nil {
+				in.goPanic("sync.Once.Do of a nil func")
+			}
+			in.invokePrepared(fr, cl, nil, cl.Binds)
+			return nil, true
+		},
+		"(*sync.Mutex).Lock":      func(in *Interp, fr *frame, a []Value) (Value, bool) { return nil, true },
+		"(*sync.Mutex).Unlock":    func(in *Interp, fr *frame, a []Value) (Value, bool) { return nil, true },
+		"(*sync.RWMutex).Lock":    func(in *Interp, fr *frame, a []Value) (Value, bool) { return nil, true },
+		"(*sync.RWMutex).Unlock":  func(in *Interp, fr *frame, a []Value) (Value, bool) { return nil, true },
+		"(*sync.RWMutex).RLock":   func(in *Interp, fr *frame, a []Value) (Value, bool) { return nil, true },
+		"(*sync.RWMutex).RUnlock": func(in *Interp, fr *frame, a []Value) (Value, bool) { return nil, true },
 		"(*sync.Map).Load": func(in *Interp, fr *frame, a []Value) (Value, bool) {
 			m := in.syncMap(a[0])
 			if e := in.findEntry(m, a[1]); e != nil {
@@ -330,6 +358,30 @@ func init() {
 		},
 		"fmt.Fprint": func(in *Interp, fr *frame, a []Value) (Value, bool) {
 			return in.fprint(fr, a[0], func() (*Str, bool) { return in.trySprint(a[1].(SliceV), fmt.Sprint) }), true
+		},
+		"fmt.Appendf": func(in *Interp, _ *frame, a []Value) (Value, bool) {
+			st, ok := in.trySprintf(a[1].(*Str), a[2].(SliceV))
+			if !ok && a[1].(*Str).IsConc() {
+				st, ok = in.simpleSprintf(a[1].(*Str).Conc(), a[2].(SliceV))
+			}
+			if !ok {
+				in.unsupported("fmt.Appendf with unsupported arguments")
+			}
+			return in.appendBytes(a[0].(SliceV), in.strToBytes(st)), true
+		},
+		"fmt.Append": func(in *Interp, _ *frame, a []Value) (Value, bool) {
+			st, ok := in.trySprint(a[1].(SliceV), fmt.Sprint)
+			if !ok {
+				in.unsupported("fmt.Append with unsupported arguments")
+			}
+			return in.appendBytes(a[0].(SliceV), in.strToBytes(st)), true
+		},
+		"fmt.Appendln": func(in *Interp, _ *frame, a []Value) (Value, bool) {
+			st, ok := in.trySprint(a[1].(SliceV), fmt.Sprintln)
+			if !ok {
+				in.unsupported("fmt.Appendln with unsupported arguments")
+			}
+			return in.appendBytes(a[0].(SliceV), in.strToBytes(st)), true
 		},
 		"fmt.Sprintln": func(in *Interp, _ *frame, a []Value) (Value, bool) {
 			s, ok := in.trySprint(a[0].(SliceV), fmt.Sprintln)
@@ -1019,6 +1071,18 @@ func (in *Interp) errorsIs(err, target Iface) *Term {
 		err = w
 	}
 	return tf.F
+}
+
+// appendBytes: append(b, more...) for byte slices (always into fresh storage: a model result shares nothing)
+func (in *Interp) appendBytes(b, more SliceV) SliceV {
+	e := make([]Value, 0, b.Len+more.Len)
+	for i := 0; i < b.Len; i++ {
+		e = append(e, b.B.E[b.Off+i])
+	}
+	for i := 0; i < more.Len; i++ {
+		e = append(e, more.B.E[more.Off+i])
+	}
+	return SliceV{B: &Backing{E: e}, Len: len(e), Cap: len(e)}
 }
 
 // trySprint: fmt.Sprint / fmt.Sprintln of arguments with concrete alternatives.
